@@ -1596,3 +1596,57 @@ ref("all-stopped-functional", ["C06", "C07"], "all_members_stopped written with 
 """, """        self.pids.iter().all(|pid| self.pids_stopped.contains(pid))
     }
 """))
+
+ref("glob-pass-skipped-by-fresh-test", ["C12", "C11", "C13"], "expand_glob skipped when no token holds a * - tested on the tokens as they are then",
+    (S, """    expand_brace(tokens);
+    expand_glob(tokens);
+    do_command_substitution(sh, tokens);""", """    expand_brace(tokens);
+    let any_star = tokens.iter().any(|t| t.1.contains('*'));
+    if any_star {
+        expand_glob(tokens);
+    }
+    do_command_substitution(sh, tokens);"""))
+mut("C12", "brace-passes-skipped-by-stale-test", "R12-11|shell::do_expansion|chain|expand_brace",
+    "brace / glob passes skipped when the typed line has no { or *",
+    (S, """    expand_alias(sh, tokens);
+    expand_home(tokens);
+    expand_env(sh, tokens);
+    expand_brace(tokens);
+    expand_glob(tokens);""", """    let worth = line.contains('{') || line.contains('*');
+    expand_alias(sh, tokens);
+    expand_home(tokens);
+    expand_env(sh, tokens);
+    if worth {
+        expand_brace(tokens);
+        expand_glob(tokens);
+    }"""))
+
+mut("C14", "run-lines-flat-fast-path", "R14-12|scripting::run_lines|always-parsed",
+    "texts without a block opener are run line by line, unparsed",
+    ("src/scripting.rs", """    let mut cr_list = Vec::new();
+    match parsers::locust::parse_lines(lines) {""", """    let mut cr_list = Vec::new();
+    if !lines.contains("if ") && !lines.contains("for ") && !lines.contains("while ") {
+        for line in lines.lines() {
+            cr_list.append(&mut execute::run_command_line(sh, line, true, capture));
+        }
+        return cr_list;
+    }
+    match parsers::locust::parse_lines(lines) {"""))
+mut("C10", "whole-word-fast-path-local-first", "R10-4|shell::expand_one_env|precedence",
+    "a word that is exactly $NAME is looked up in the shell map first",
+    (S, """        let mut _token = token.clone();
+        while env_in_token(&_token) {""", """        if let Some(name) = token.strip_prefix('$') {
+            if !name.is_empty() && name.chars().all(|c| c.is_ascii_alphanumeric() || c == '_') {
+                if let Some(v) = sh.get_env(name) {
+                    buff.push((idx, v));
+                    idx += 1;
+                    continue;
+                }
+            }
+        }
+        let mut _token = token.clone();
+        while env_in_token(&_token) {"""))
+
+mut("C12", "group-returns-unshortened-rest", "R12-12|shell::brace_getgroup|closing-brace-consumed",
+    "the comma-less group hands back the remainder with its closing brace still in it",
+    (S, "            return Some((result, sss));", "            return Some((result, ss));"))
